@@ -192,130 +192,133 @@ func relStatus(rls *release.Release) string {
 	return " " + rls.Info.Status.String()
 }
 
-func (d *seamDriver) gate(op, key string) (verdict string, err error) {
+// call routes one driver call through the seam. fn performs the real call.
+func (d *seamDriver) call(op, key string, write bool, fn func() error) (err error, applied bool) {
 	if !d.park || d.proc.Direct {
-		return "", nil
+		err = fn()
+		return err, err == nil
 	}
 	s := d.proc.Sim
 	s.mu.Lock()
 	crashed := d.proc.Crashed
 	s.mu.Unlock()
 	if crashed {
-		return "", errCrashed
+		return errCrashed, false
 	}
-	r := s.park(&pend{kind: pkStore, proc: d.proc, verb: "STORE", path: op + " " + key})
-	return r.verdict, r.err
+	var fnErr error
+	p := &pend{kind: pkStore, proc: d.proc, verb: "STORE", path: op + " " + key, write: write}
+	p.fn = func() { fnErr = fn() }
+	r := s.park(p)
+	if r.err != nil {
+		return r.err, false
+	}
+	switch r.verdict {
+	case "err-before":
+		return errStoreFault, false
+	case "done": // already executed by the scheduler
+		return fnErr, fnErr == nil
+	case "err-after":
+		if e := fn(); e != nil {
+			return e, false
+		}
+		return errStoreFault, true
+	}
+	err = fn()
+	return err, err == nil
 }
 
-func (d *seamDriver) record(op, key string, rls *release.Release, err error, applied bool) {
+func (d *seamDriver) record(op, key string, rls *release.Release, status string, err error, applied bool) {
 	if d.proc.Direct {
 		return
 	}
-	c := StoreCall{Op: op, Key: key, Applied: applied}
+	c := StoreCall{Op: op, Key: key, Applied: applied, Status: status}
 	if rls != nil {
 		c.Rev = rls.Version
-		if rls.Info != nil {
-			c.Status = rls.Info.Status.String()
-		}
 	}
 	if err != nil {
 		c.Err = err.Error()
 	}
 	s := d.proc.Sim
 	s.mu.Lock()
+	c.Seq = s.curSeq()
 	d.proc.StoreLog = append(d.proc.StoreLog, c)
 	s.mu.Unlock()
 }
 
 var errStoreFault = fmt.Errorf("simulated storage failure")
 
+func statusOf(rls *release.Release) string {
+	if rls == nil || rls.Info == nil {
+		return ""
+	}
+	return rls.Info.Status.String()
+}
+
 func (d *seamDriver) Create(key string, rls *release.Release) error {
-	v, err := d.gate("create", key+relStatus(rls))
-	if err != nil {
-		return err
-	}
-	if v == "err-before" {
-		d.record("create", key, rls, errStoreFault, false)
-		return errStoreFault
-	}
-	err = d.inner.Create(key, rls)
-	if v == "err-after" && err == nil {
-		err = errStoreFault
-		d.record("create", key, rls, err, true)
-		return err
-	}
-	d.record("create", key, rls, err, err == nil)
+	st := statusOf(rls)
+	err, applied := d.call("create", key+relStatus(rls), true, func() error { return d.inner.Create(key, rls) })
+	d.record("create", key, rls, st, err, applied)
 	return err
 }
 
 func (d *seamDriver) Update(key string, rls *release.Release) error {
-	v, err := d.gate("update", key+relStatus(rls))
-	if err != nil {
-		return err
-	}
-	if v == "err-before" {
-		d.record("update", key, rls, errStoreFault, false)
-		return errStoreFault
-	}
-	err = d.inner.Update(key, rls)
-	if v == "err-after" && err == nil {
-		err = errStoreFault
-		d.record("update", key, rls, err, true)
-		return err
-	}
-	d.record("update", key, rls, err, err == nil)
+	st := statusOf(rls)
+	err, applied := d.call("update", key+relStatus(rls), true, func() error { return d.inner.Update(key, rls) })
+	d.record("update", key, rls, st, err, applied)
 	return err
 }
 
 func (d *seamDriver) Delete(key string) (*release.Release, error) {
-	v, err := d.gate("delete", key)
+	var out *release.Release
+	err, applied := d.call("delete", key, true, func() error {
+		var e error
+		out, e = d.inner.Delete(key)
+		return e
+	})
+	d.record("delete", key, out, "", err, applied)
 	if err != nil {
 		return nil, err
 	}
-	if v == "err-before" {
-		d.record("delete", key, nil, errStoreFault, false)
-		return nil, errStoreFault
-	}
-	r, err := d.inner.Delete(key)
-	if v == "err-after" && err == nil {
-		d.record("delete", key, r, errStoreFault, true)
-		return nil, errStoreFault
-	}
-	d.record("delete", key, r, err, err == nil)
-	return r, err
+	return out, nil
 }
 
 func (d *seamDriver) Get(key string) (*release.Release, error) {
-	v, err := d.gate("get", key)
+	var out *release.Release
+	err, _ := d.call("get", key, false, func() error {
+		var e error
+		out, e = d.inner.Get(key)
+		return e
+	})
 	if err != nil {
 		return nil, err
 	}
-	if v != "" {
-		return nil, errStoreFault
-	}
-	return d.inner.Get(key)
+	return out, nil
 }
 
 func (d *seamDriver) List(filter func(*release.Release) bool) ([]*release.Release, error) {
-	v, err := d.gate("list", "")
+	var out []*release.Release
+	err, _ := d.call("list", "", false, func() error {
+		var e error
+		out, e = d.inner.List(filter)
+		return e
+	})
 	if err != nil {
 		return nil, err
 	}
-	if v != "" {
-		return nil, errStoreFault
-	}
-	return d.inner.List(filter)
+	return out, nil
 }
 
 func (d *seamDriver) Query(labels map[string]string) ([]*release.Release, error) {
-	v, err := d.gate("query", labels["name"]+"/"+labels["status"])
+	var out []*release.Release
+	err, _ := d.call("query", labels["name"]+"/"+labels["status"], false, func() error {
+		var e error
+		out, e = d.inner.Query(labels)
+		return e
+	})
 	if err != nil {
 		return nil, err
 	}
-	if v != "" {
-		return nil, errStoreFault
-	}
-	return d.inner.Query(labels)
+	return out, nil
 }
 
 // Process bundles everything one Helm invocation owns.
